@@ -133,6 +133,7 @@ func TestVerifC18(t *testing.T) {
 		}
 	}()
 	thorough := vrep.Thorough()
+	c18Writers(rep)
 	for _, v := range variants() {
 		limits := []int{8, 130}
 		if thorough {
@@ -355,4 +356,94 @@ func errName(err error) string {
 		s = s[:24]
 	}
 	return s
+}
+
+// fastMsg is a message that offers MarshalTo and Size, which makes the writers take their buffer-reusing path
+// (the messages generated for this project do not; code linked against the package may).
+type fastMsg struct{ *anypb.Any }
+
+func (f fastMsg) Size() int { return proto.Size(f.Any) }
+func (f fastMsg) MarshalTo(b []byte) (int, error) {
+	out, err := proto.MarshalOptions{}.MarshalAppend(b[:0], f.Any)
+	if err != nil {
+		return 0, err
+	}
+	if len(out) > len(b) {
+		return 0, fmt.Errorf("destination of %d bytes for a message of %d bytes: short buffer", len(b), len(out))
+	}
+	return len(out), nil
+}
+
+// c18Writers: what one writer does with a sequence of messages of different sizes (its buffer is reused and grows):
+// base, base+delta, base for every base around the prefix-length boundaries and every small delta, for plain messages
+// and for messages that offer MarshalTo/Size.
+func c18Writers(rep *vrep.Report) {
+	bases := []int{0, 3, 100, 117, 118, 119, 120, 126, 127, 128, 129, 200, 16372, 16383, 16384, 16385}
+	for _, v := range variants() {
+		for _, fast := range []bool{false, true} {
+			for _, base := range bases {
+				for delta := -4; delta <= 12; delta++ {
+					second := base + delta
+					if second < 0 || second == 1 || base == 1 {
+						continue
+					}
+					sizes := []int{base, second, base}
+					var buf bytes.Buffer
+					w := v.writer(&buf)
+					var bodies [][]byte
+					var werr interface{}
+					func() {
+						defer func() {
+							if r := recover(); r != nil {
+								werr = fmt.Sprintf("PANIC %v", r)
+							}
+						}()
+						for _, s := range sizes {
+							m := msgOfSize(s)
+							b, _ := proto.Marshal(m)
+							bodies = append(bodies, b)
+							var msg proto.Message = m
+							if fast {
+								a, ok := m.(*anypb.Any)
+								if !ok {
+									a = &anypb.Any{}
+									must18(proto.Unmarshal(b, a))
+								}
+								msg = fastMsg{a}
+							}
+							if err := w.WriteMsg(msg); err != nil {
+								werr = err
+								return
+							}
+						}
+					}()
+					c := c18Case{Variant: v.name, Limit: 1 << 20, Sizes: sizes}
+					rep.Eval(fmt.Sprintf("writer/%s/fast=%v/write-ok=%v", v.name, fast, werr == nil))
+					if werr != nil {
+						rep.Violation("C18/write-error", fmt.Sprintf("%s writer (MarshalTo path=%v), message sizes %v: %v", v.name, fast, sizes, werr), c)
+						continue
+					}
+					frames, err, _, pan := readAll(v, buf.Bytes(), nil, 1<<20, len(sizes)+1)
+					ok := pan == nil && len(frames) == len(sizes) && err != nil
+					if ok {
+						for i := range frames {
+							if !bytes.Equal(frames[i], bodies[i]) {
+								ok = false
+							}
+						}
+					}
+					if !ok {
+						rep.Violation("C18/writer-round-trip", fmt.Sprintf("%s writer (MarshalTo path=%v), message sizes %v: read back %d frames (err=%v panic=%v), contents equal=%v", v.name, fast, sizes, len(frames), err, pan, ok), c)
+					}
+				}
+			}
+		}
+	}
+	rep.Sample(map[string]interface{}{"part": "writers: buffer reuse across sizes", "bases": bases, "deltas": "-4..12", "message_kinds": []string{"plain", "with MarshalTo/Size"}})
+}
+
+func must18(err error) {
+	if err != nil {
+		panic(err)
+	}
 }
